@@ -283,6 +283,9 @@ func Check(env *core.Env, rep *core.Report) *core.Result {
 	doubleInc := DoubleInclusion(env, rep, map[bool]int{false: 2500, true: 40000}[thorough])
 	validated += doubleInc
 
+	// many independent stages at once
+	validated += WideFanOut(env, rep, map[bool][]int{false: {40, 130}, true: {40, 70, 130, 300, 1000}}[thorough])
+
 	// Cancel while an included pipeline is being scheduled
 	validated += NestedCancel(env, rep, map[bool]int{false: 5, true: 100}[thorough])
 
